@@ -79,6 +79,7 @@ class Generator:
         self.from_impls: List[str] = []
         self.pending_after = []
         self.canary_fns = set()
+        self.syntactic = []
         self.field_types: Dict[str, Dict[str, str]] = {}
 
     # ------------------------------------------------------------------ emit helpers
@@ -813,6 +814,13 @@ class Generator:
                     inserts.extend(desugar_open)
                     inserts.append(desugar_close)
                 inserts.extend(loopend_segs)
+            # ownership conditions checked on the source text (Rust drop rules): a named binding declared
+            # by `let VAR = <decl>` must still be alive (same or enclosing block, not moved, not dropped)
+            # at the statement matched by `until`
+            for (var, decl_re, until_re, oid, tags, hsrc) in c.holds:
+                body_txt = txt[b_lo:b_hi]
+                ok, why = check_holds(body_txt, var, decl_re, until_re)
+                self.syntactic.append(dict(oid=oid, tags=tags, addr=addr, ok=ok, why=why, src_file=rel, src_line=src_line))
             # R15: closure headers get parameter types, a named result and requires/ensures; the closure
             # body is copied verbatim inside braces
             for cs in c.closures:
@@ -934,14 +942,42 @@ class Generator:
                     fi.gen_first = seg_first_line[a]
                     fi.gen_last = seg_first_line[b - 1] + self.segs[b - 1].text.count('\n')
         text = ''.join(out)
-        return GenResult(text=text, linemap=linemap, clause_ranges=clause_ranges, fns=self.fns,
-                         rule_hits=dict(self.rules.hits), sha=self.sha, contracts=self.contracts)
+        r = GenResult(text=text, linemap=linemap, clause_ranges=clause_ranges, fns=self.fns,
+                      rule_hits=dict(self.rules.hits), sha=self.sha, contracts=self.contracts)
+        r.syntactic = self.syntactic
+        return r
 
 
 def trait_key(t):
     t = re.sub(r"'[A-Za-z_]+\s*,?\s*", '', t)
     t = re.sub(r'<\s*>', '', t)
     return re.sub(r'\s+', '', t)
+
+
+def check_holds(body: str, var: str, decl_re: str, until_re: str):
+    toks = lex(body)
+    decl = [m for m in re.finditer(r'let\s+(mut\s+)?%s\s*(:[^=]*)?=\s*%s' % (re.escape(var), decl_re), body)]
+    if len(decl) != 1:
+        return False, 'no (unique) binding `let %s = %s`' % (var, decl_re)
+    unt = [m for m in re.finditer(until_re, body)]
+    if len(unt) != 1:
+        return False, '`until` statement /%s/ matches %d times' % (until_re, len(unt))
+    a, b = decl[0].end(), unt[0].start()
+    if b < a:
+        return False, 'the binding is declared after the statement it must cover'
+    depth = 0
+    for t in toks:
+        if t.start < a or t.start >= b:
+            continue
+        if t.kind == 'punct' and t.text == '{':
+            depth += 1
+        elif t.kind == 'punct' and t.text == '}':
+            depth -= 1
+            if depth < 0:
+                return False, 'the block declaring `%s` ends before the statement' % var
+        elif t.kind == 'ident' and t.text == var:
+            return False, '`%s` is used (moved or dropped?) before the statement' % var
+    return True, ''
 
 
 def short(addr):
